@@ -11,7 +11,9 @@ func VerifC06x_f02() {
 	cases := []verifAltCase{
 		{name: "masked-field-implies-bit", alt: `{"a":` + N + `}`, canon: `{"m":1,"a":` + N + `}`},
 		{name: "mask-with-explicit-bit-and-field", alt: `{"m":1,"a":"` + N + `"}`, canon: `{"m":1,"a":` + N + `}`},
-		{name: "true-field-as-true-implies-bit", alt: `{"c":true}`, canon: `{"m":4,"c":true}`},
+		// f02.local has TWO true-typed fields (c, e) on mask bit 2: generated with TL2 they are independent `bit` fields, so an
+		// explicit "m":4 marks both while "c":true marks c only; the TL1 values coincide, the TL2/JSON views need not
+		{name: "true-field-as-true-implies-bit", alt: `{"c":true}`, canon: `{"m":4,"c":true}`, tl1Only: verifDesc_F02Local.hasTL2},
 		{name: "true-field-false-with-bit-clear", alt: `{"c":false}`, canon: `{}`},
 		{name: "two-masked-fields", alt: `{"a":` + N + `,"d":` + N + `}`, canon: `{"m":2147483649,"a":` + N + `,"d":` + N + `}`},
 		{name: "unknown-key", alt: `{"m":1,"a":` + N + `,"zz":0}`, reject: true},
